@@ -132,6 +132,17 @@ def opOneBlock (ws : List String) : String :=
     match parseParts n i p l with
     | some b => showParsed (parseFilename (fileName b generated))
     | none => "bad-op"
+  | ["mfetch", n, _base, bl] =>
+    -- the block numbered n of the merged bundle, when there is one (the file source skips lower blocks and stops
+    -- at the first higher one)
+    match n.toNat? with
+    | some n =>
+      let blks : List (String × Nat) := (bl.splitOn ",").filterMap (fun t => match t.splitOn ":" with
+        | [i, _, k, _] => k.toNat?.map (fun k => (i, k)) | _ => none)
+      (match (blks.dropWhile (fun b => b.2 < n)).head? with
+       | some b => if b.2 == n then s!"found {b.1} {b.2}" else "notfound"
+       | none => "notfound")
+    | none => "bad-op"
   | ["fetch", n, i, names] =>
     match n.toNat?, unhex i, (if names == "-" then some [] else (names.splitOn ",").mapM unhex) with
     | some n, some i, some names =>
@@ -146,6 +157,14 @@ def dashFree (b : Bytes) : Bool := !b.contains dash
 def monitorOneBlock (ws impl : List String) : String :=
   if impl == ["panic"] then "filename-crash" else
   match ws with
+  | ["mfetch", n, _, bl] =>
+    -- fetching by number from a merged store returns that block or not-found
+    let stored : List (String × String) := (bl.splitOn ",").filterMap (fun t => match t.splitOn ":" with
+      | [i, _, k, _] => some (i, k) | _ => none)
+    (match impl with
+     | ["found", i, k] => if k == n && stored.contains (i, k) then "" else "fetch-by-number-returns-another-block"
+     | ["notfound"] => if stored.any (·.2 == n) then "fetch-by-number-misses-a-stored-block" else ""
+     | _ => "fetch-by-number-fails")
   | ["rt", n, i, p, l] =>
     match parseParts n i p l with
     | some b =>
